@@ -1297,7 +1297,20 @@ func ruleBarrier(c *chk.Ctx, d *dispatchModel) {
 		allRet := ir.AllReturnsDominatedBy(bcall)
 		c.Check(isCall && allRet, "PAIR.barrier", d.prepare, "barrier taken synchronously", bcall.Pos(), "a plain call (not go/defer) dominating every return of the prepare function",
 			"the barrier is not taken synchronously on every path before the batch's closure is handed out")
-		c.Check(isNotesCount(c, d, bcall.Common().Args[1]), "PAIR.barrier", d.prepare, "barrier amount", bcall.Pos(), "the amount added is the counting function's notification count (second result)", "the amount added to the barrier is not the notification count of the counting function: handlers' Done calls would not match")
+		amountIdx := 1
+		if add != nil {
+			if par, isPar := add.Call.Args[1].(*ssa.Parameter); isPar {
+				for i, q := range bf.Params {
+					if q == par {
+						amountIdx = i
+					}
+				}
+			}
+		}
+		if amountIdx >= len(bcall.Common().Args) {
+			amountIdx = len(bcall.Common().Args) - 1
+		}
+		c.Check(isNotesCount(c, d, bcall.Common().Args[amountIdx]), "PAIR.barrier", d.prepare, "barrier amount", bcall.Pos(), "the amount added is the counting function's notification count (second result)", "the amount added to the barrier is not the notification count of the counting function: handlers' Done calls would not match")
 	}
 	// chain loop → dequeue → prepare has no go/defer in between: prepare is called by a plain call from the function that dequeues
 	for _, s := range c.P.Callers(d.prepare) {
@@ -1307,26 +1320,50 @@ func ruleBarrier(c *chk.Ctx, d *dispatchModel) {
 	// D3: each invoke site is followed by Done iff the same task's request is a notification
 	for _, s := range d.invokeSites {
 		f := s.Parent()
-		var dones []*ssa.Call
-		ir.Instrs(f, func(ins ssa.Instruction) {
-			if call, ok := ins.(*ssa.Call); ok {
-				if id, ok := wgCall(call, "Done"); ok && id == nbar && ir.InstrDominates(s.(*ssa.Call), call) {
-					// restrict to Dones "belonging" to this site: reachable from site without passing another invoke site
-					dones = append(dones, call)
+		// a Done "at" instruction a of f: the Done call itself, or the call of a private helper
+		// (a barrier type's method) that performs it
+		type doneAt struct {
+			at ssa.Instruction
+			dn *ssa.Call
+		}
+		var dones []doneAt
+		for _, g := range pkgFuncs(c, c.M.Pkg) {
+			ir.Instrs(g, func(ins ssa.Instruction) {
+				call, ok := ins.(*ssa.Call)
+				if !ok {
+					return
 				}
-			}
-		})
-		// choose the nearest: the one whose block is reached first
-		var mine *ssa.Call
-		for _, dn := range dones {
+				if id, ok := wgCall(call, "Done"); !ok || id != nbar {
+					return
+				}
+				if g == f {
+					if ir.InstrDominates(s.(*ssa.Call), call) {
+						dones = append(dones, doneAt{call, call})
+					}
+					return
+				}
+				if g.Parent() != nil {
+					return // another closure's own Done
+				}
+				for _, a := range anchorsIn(c, call, f) {
+					if ir.InstrDominates(s.(*ssa.Call), a) {
+						dones = append(dones, doneAt{a, call})
+					}
+				}
+			})
+		}
+		// choose the nearest: the one not behind another invocation site
+		var mine *doneAt
+		for i := range dones {
+			dn := dones[i]
 			other := false
 			for _, s2 := range d.invokeSites {
-				if s2 != s && s2.Parent() == f && ir.InstrDominates(s2.(*ssa.Call), dn) && ir.InstrDominates(s.(*ssa.Call), s2.(*ssa.Call)) {
+				if s2 != s && s2.Parent() == f && ir.InstrDominates(s2.(*ssa.Call), dn.at) && ir.InstrDominates(s.(*ssa.Call), s2.(*ssa.Call)) {
 					other = true
 				}
 			}
 			if !other {
-				mine = dn
+				mine = &dones[i]
 			}
 		}
 		if mine == nil {
@@ -1335,7 +1372,11 @@ func ruleBarrier(c *chk.Ctx, d *dispatchModel) {
 		}
 		// governed exactly by IsNotification() of the same task's request, evaluated after the invoke
 		okGov := false
-		for _, cd := range ir.CondsAt(mine.Block()) {
+		conds := ir.CondsAt(mine.dn.Block())
+		if mine.dn.Parent() != f {
+			conds = c.P.CondsWithin(mine.dn, f)
+		}
+		for _, cd := range conds {
 			call, ok := cd.V.(*ssa.Call)
 			if !ok || !cd.Truth {
 				continue
@@ -1344,13 +1385,28 @@ func ruleBarrier(c *chk.Ctx, d *dispatchModel) {
 			if g == nil || !isRequestNotificationPred(c, g) {
 				continue
 			}
-			t, fv, ok := taskFieldLoad(c, call.Call.Args[0])
+			subject := c.P.Canon(call.Call.Args[0])
+			if par, isPar := ir.NormCell(call.Call.Args[0]).(*ssa.Parameter); isPar && call.Parent() != f {
+				// the helper's parameter, read as the argument of this very call of the helper
+				if ac, isCI := mine.at.(ssa.CallInstruction); isCI && ac.Common().StaticCallee() == par.Parent() {
+					for i, q := range par.Parent().Params {
+						if q == par && i < len(ac.Common().Args) {
+							subject = ac.Common().Args[i]
+						}
+					}
+				}
+			}
+			t, fv, ok := taskFieldLoad(c, subject)
 			t0 := invokeSiteTask(c, s)
-			if ok && fv == c.M.THreq && t0 != nil && t == t0 && ir.InstrDominates(s.(*ssa.Call), call) {
+			after := ir.InstrDominates(s.(*ssa.Call), call)
+			if call.Parent() != f {
+				after = ir.InstrDominates(s.(*ssa.Call), mine.at)
+			}
+			if ok && fv == c.M.THreq && t0 != nil && t == t0 && after {
 				okGov = true
 			}
 		}
-		c.Check(okGov && !ir.InCycle(mine.Block()) || okGov && f == d.closure, "PAIR.barrier", f, "Done after invoke", mine.Pos(), "after the handler returns, Done is called exactly when the same task's request is a notification",
+		c.Check(okGov && !ir.InCycle(mine.at.Block()) || okGov && f == d.closure, "PAIR.barrier", f, "Done after invoke", mine.at.Pos(), "after the handler returns, Done is called exactly when the same task's request is a notification",
 			"the Done after this invocation is not governed by IsNotification() of the same task: the barrier count would drift")
 		// Done is not reachable twice
 	}
@@ -1359,7 +1415,18 @@ func ruleBarrier(c *chk.Ctx, d *dispatchModel) {
 	for _, f := range pkgFuncs(c, c.M.Pkg) {
 		ir.Calls(f, func(ci ssa.CallInstruction) {
 			if id, ok := wgCall(ci, "Done"); ok && id == nbar {
-				nd++
+				// a Done inside a helper counts once per call of the helper
+				hasSite := false
+				for _, s := range d.invokeSites {
+					if s.Parent() == f {
+						hasSite = true
+					}
+				}
+				if !hasSite && f.Parent() == nil && len(c.P.Callers(f)) > 0 {
+					nd += len(c.P.Callers(f))
+				} else {
+					nd++
+				}
 			}
 			if id, ok := wgCall(ci, "Add"); ok && id == nbar && f != bf {
 				c.Fail("PAIR.barrier", f, "barrier Add elsewhere", ci.Pos(), "the notification barrier is added to outside the barrier function")
@@ -1871,7 +1938,7 @@ func handlerValueOnlyFrom(c *chk.Ctx, h, fn *ssa.Function) bool {
 				return
 			}
 			found = true
-			if f != fn {
+			if f != fn && !c.P.InExt(fn, f) {
 				ok = false
 			}
 		})
